@@ -18,6 +18,7 @@ Nothing here imports beyond at module level (core puts REPO first on sys.path).
 """
 import json
 import os
+import re
 import signal
 import struct
 import sys
@@ -150,7 +151,7 @@ def resolvable(start_obj, a, b):
     return None
 
 
-def sweep_methods(nodes, owner_of, kind, fails, label):
+def sweep_methods(nodes, owner_of, kind, fails, label, site_of=None):
     """from every start object, every step of every route has a resolvable link method"""
     n = len(nodes)
     names = sorted({u.name for u in nodes})
@@ -167,7 +168,8 @@ def sweep_methods(nodes, owner_of, kind, fails, label):
                 a, b = p[i].name, p[i + 1].name
                 if resolvable(start, a, b) is None and (a, b, type(start).__name__) not in bad:
                     bad.add((a, b, type(start).__name__))
-                    fails.append(dict(family=f"{kind}-link-method-unresolvable",
+                    site = (site_of or {}).get(b) or (site_of or {}).get(a) or "builtin"
+                    fails.append(dict(family=f"link-method-unresolvable:{site}",
                                       what="two linked nodes have no '<a>_to_<b>' method visible from the start object: convert_to raises 'Unknown transformation' on a connected pair",
                                       detail={"after": label, "start": u.name, "start_class": type(start).__name__, "goal": goal, "step": [a, b],
                                               "class_of_a": type(owner_of(p[i])).__name__ if owner_of(p[i]) is not None else None,
@@ -193,6 +195,7 @@ class World:
         self.used = set(BUILTIN) | {"Earth", "WGS84", "Hill"}
         self.jpl_done = False
         self.user_classes = {}
+        self.site_of = {}      # node name -> kind of the operation that (last) registered it
 
     def frame(self, k):
         return self.frames[k % len(self.frames)][1]
@@ -354,6 +357,8 @@ def run_scenario(ops, opts=None):
                     w.frames.append((f"{len(w.frames)}:{x.name}", x))
         fresh = op is not None and not (new_names & w.used)
         w.used |= new_names
+        for nm_ in new_names:
+            w.site_of[nm_] = op["op"]
         # 1. routing sweep on both graphs, bounded
         cnodes, ok1 = sweep([cmod.Earth.node] + [f.center.node for _, f in w.frames], "center", fails, label, extra_names=("C20-absent",))
         onodes, ok2 = sweep([omod.ITRF] + [f.orientation for _, f in w.frames], "orient", fails, label, extra_names=("C20-absent",))
@@ -362,10 +367,13 @@ def run_scenario(ops, opts=None):
             break   # never call the real path()/convert on a graph whose tables loop or break
         # 2. registry layer
         cobj = w.all_center_objects()
-        ok3 = sweep_methods(cnodes, lambda u: cobj.get(id(u)), "center", fails, label)
-        ok4 = sweep_methods(onodes, lambda u: u, "orient", fails, label)
+        ok3 = sweep_methods(cnodes, lambda u: cobj.get(id(u)), "center", fails, label, w.site_of)
+        ok4 = sweep_methods(onodes, lambda u: u, "orient", fails, label, w.site_of)
         counts["method_steps"] += len(cnodes) ** 2 + len(onodes) ** 2
-        # 3. conversions
+        # 3. conversions (a target is designated by NAME: with several live nodes of one name the nearest one is meant, so
+        # value-level checks are restricted to unambiguous names)
+        amb_c = {x for x in {u.name for u in cnodes} if sum(1 for u in cnodes if u.name == x) > 1}
+        amb_o = {x for x in {u.name for u in onodes} if sum(1 for u in onodes if u.name == x) > 1}
         pairs = pairs_now()
         after = {}
         for i, j in pairs:
@@ -376,15 +384,22 @@ def run_scenario(ops, opts=None):
                 y = x.copy(frame=b)
                 z = y.copy(frame=a)
             except Exception as e:  # noqa: BLE001
-                site = "unknown-transformation" if "Unknown transformation" in str(e) else ("unknown-node" if "Unknown '" in str(e) else type(e).__name__)
-                fails.append(dict(family=f"connected-not-convertible:{site}", what="two connected frames cannot be converted into each other",
+                m = re.search(r"Unknown transformation (\S+) <-> (\S+)", str(e))
+                if m:
+                    fam = "link-method-unresolvable:" + (w.site_of.get(m.group(2)) or w.site_of.get(m.group(1)) or "builtin")
+                else:
+                    fam = "connected-not-convertible:" + ("unknown-node" if "Unknown '" in str(e) else type(e).__name__)
+                fails.append(dict(family=fam, what="two connected frames cannot be converted into each other",
                                   detail={"after": label, "from": w.frames[i][0], "to": w.frames[j][0], "error": repr(e)[:200],
                                           "to_orientation_class": type(b.orientation).__name__, "from_orientation_class": type(a.orientation).__name__}))
                 continue
             after[i, j] = np.array(y)
             scale = max(1.0, float(np.abs(np.array(x)[:3]).max()), float(np.abs(np.array(y)[:3]).max()))
             err = float(np.abs(np.array(z) - np.array(x))[:3].max())
-            if not err <= 1e-7 * scale + 1e-6:
+            on_route = {u.name for u in bounded_walk(a.center.node, b.center.name, len(cnodes) + 2)[1]} | {a.center.name, b.center.name}
+            on_route_o = {u.name for u in bounded_walk(a.orientation, b.orientation.name, len(onodes) + 2)[1]} | {a.orientation.name, b.orientation.name}
+            amb = (on_route & amb_c) or (on_route_o & amb_o)
+            if not amb and not err <= 1e-7 * scale + 1e-6:
                 fails.append(dict(family="conversion-roundtrip", what="a -> b -> a does not come back",
                                   detail={"after": label, "from": w.frames[i][0], "to": w.frames[j][0], "err_m": err, "scale": scale}))
             if fresh and (i, j) in before:
@@ -589,3 +604,414 @@ if __name__ == "__main__":
         for f in res["fails"][:6]:
             print("   FAIL", f["family"], "|", f["what"], "|", json.dumps(f["detail"], default=str)[:400])
     print("t", round(time.time() - t, 2))
+
+
+# ================================================================ correspondence with Model/Registry.lean
+#
+# (a) named routing: real Node objects, several of which may carry one name, against `nnode`
+# (b) method table: real Orientation / Center classes (and their subclasses, and user-defined subclasses), driven
+#     through the registration sites of the code and through raw `+` / `setattr`, against `reg`
+
+def named_line(names, hist):
+    return f"nnode {len(names)} " + ",".join(str(x) for x in names) + "".join(f" {a}-{b}" for a, b in hist)
+
+
+def real_named_dump(names, hist):
+    """same format as the driver's `nnode` reply, from real Node objects (paths through a step-bounded walk first)"""
+    from beyond.utils.node import Node
+    n = len(names)
+    nodes = [Node(str(x)) for x in names]
+    for a, b in hist:
+        nodes[a] + nodes[b]
+    return dump_real_nodes(nodes) + " P " + ";".join(real_named_paths(nodes, names))
+
+
+def dump_real_nodes(nodes):
+    idx = {id(x): i for i, x in enumerate(nodes)}
+    n = len(nodes)
+    nb = ";".join(f"{u}:" + ",".join(str(idx[id(x)]) for x in nodes[u].neighbors) for u in range(n))
+    tabs = ";".join(f"{u}:" + ",".join(f"{t}>{idx[id(r.direction)]}/{r.steps}" for t, r in sorted(nodes[u].routes.items(), key=lambda kv: int(kv[0])))
+                    for u in range(n))
+    return "N " + nb + " R " + tabs
+
+
+def real_named_paths(nodes, names):
+    idx = {id(x): i for i, x in enumerate(nodes)}
+    n = len(nodes)
+    out = []
+    for s in range(n):
+        for goal in sorted(set(names)):
+            st, p = bounded_walk(nodes[s], str(goal), n + 2)
+            if st == "ok":
+                p = nodes[s].path(str(goal))       # the real method, now known to terminate
+                out.append(".".join(str(idx[id(x)]) for x in p))
+            elif st == "U":
+                try:
+                    nodes[s].path(str(goal))
+                    out.append("?")
+                except ValueError:
+                    out.append("U")
+            else:
+                out.append(st)
+    return out
+
+
+ORIENT_CLASSES = ["Orientation", "TopocentricOrientation", "LocalOrbitalOrientation", "LagrangeOrient", "UserA", "UserB"]
+CENTER_CLASSES = ["Center", "JplCenter", "UserCenter"]
+
+
+def reg_line(sc):
+    n = len(sc["names"])
+    mro = ";".join(f"{c}:" + ".".join(str(x) for x in l) for c, l in sorted(sc["mro"].items()))
+    return (f"reg {n} " + ",".join(map(str, sc["names"])) + " " + ",".join(map(str, sc["classes"])) + f" {mro} 0 " + " ".join(sc["ops"])).rstrip()
+
+
+class _RegWorld:
+    """real classes for one world ('orient' or 'center'); the `_to_parent` of every class is replaced by a recorder, so
+    that a real convert_to call tells which objects' methods it resolved, in order"""
+
+    def __init__(self, world):
+        import numpy as np
+        from types import SimpleNamespace
+        from beyond.dates import Date
+        from beyond.frames import center as cmod, orient as omod, frames as fmod, lagrange as lmod
+        from beyond.env import jpl
+        self.np, self.NS = np, SimpleNamespace
+        self.world = world
+        self.log = []
+        self.date = Date(2018, 2, 25, 12)
+        self.cmod, self.omod, self.fmod, self.lmod, self.jpl = cmod, omod, fmod, lmod, jpl
+        log = self.log
+        if world == "orient":
+            def rec(obj, date):
+                log.append(obj)
+                return np.identity(3), None
+
+            class UserA(omod.Orientation):
+                """registered the way beyond.frames.lagrange.LagrangeOrient is: by hand, by the raw operations of the scenario"""
+                _to_parent = rec
+
+            class UserB(UserA):
+                pass
+            self.classes = [omod.Orientation, omod.TopocentricOrientation, omod.LocalOrbitalOrientation, lmod.LagrangeOrient, UserA, UserB]
+            self.saved = [(c, c.__dict__.get("_to_parent")) for c in self.classes[1:4]]
+            for c in self.classes[1:4]:
+                c._to_parent = rec
+            omod.Orientation._to_parent = rec      # plain Orientation objects registered by hand (raw ops) need a method to bind
+            self.saved.append((omod.Orientation, None))
+        else:
+            def rec(obj, date, orientation):
+                log.append(obj)
+                return np.zeros(6)
+
+            class UserCenter(cmod.Center):
+                pass
+            self.classes = [cmod.Center, jpl.JplCenter, UserCenter]
+            self.saved = [(cmod.Center, cmod.Center.__dict__["_to_parent"])]
+            cmod.Center._to_parent = rec
+
+    def restore(self):
+        for c, f in self.saved:
+            if f is None:
+                try:
+                    delattr(c, "_to_parent")
+                except AttributeError:
+                    pass
+            else:
+                c._to_parent = f
+
+    def mro(self):
+        out = {}
+        for i, c in enumerate(self.classes):
+            out[i] = [self.classes.index(k) for k in c.__mro__ if k in self.classes]
+        return out
+
+    # ---------------------------------------------------------------- one scenario
+    def run(self, sc, site_labels):
+        np, NS = self.np, self.NS
+        omod, cmod, fmod = self.omod, self.cmod, self.fmod
+        tag = sc["tag"]
+        names, classes = sc["names"], sc["classes"]
+        if self.mro() != {int(k): v for k, v in sc["mro"].items()}:
+            raise RuntimeError(f"class hierarchy differs from the table of the harness: {self.mro()}")
+        n = len(names)
+        lag = {names[i] for i in range(n) if self.world == "orient" and classes[i] == 3}
+
+        def nstr(k):
+            return f"{tag}N{k}" + ("Lagrange" if k in lag else "")
+        objs = [None] * n
+        dummy_center = cmod.Center(f"{tag}DC")
+        dummy_orient = omod.Orientation(f"{tag}DO")
+        for i in range(n):
+            if self.world == "orient" and classes[i] in (0, 4, 5):
+                objs[i] = self.classes[classes[i]](nstr(names[i]))
+            elif self.world == "center" and classes[i] in (0, 2):
+                objs[i] = self.classes[classes[i]](nstr(names[i]))
+            elif self.world == "center" and classes[i] == 1:
+                objs[i] = self.jpl.JplCenter(nstr(names[i]), 1000 + i)
+                if objs[i].name != nstr(names[i]):
+                    raise RuntimeError("JplCenter mangled the name")
+
+        def node(o):
+            return o if self.world == "orient" else o.node
+
+        def frame_for(role_parent, other):
+            """a Frame whose orientation / centre is the parent object, named after `other`"""
+            if self.world == "orient":
+                return fmod.Frame(nstr(names[other]) + "F", objs[role_parent], dummy_center, exists_warning=False)
+            return fmod.Frame(nstr(names[other]) + "F", dummy_orient, objs[role_parent], exists_warning=False)
+
+        for tok in sc["ops"]:
+            parts = tok.split(":")
+            if parts[0] == "L":
+                a, b = int(parts[1]), int(parts[2])
+                node(objs[a]) + node(objs[b])
+            elif parts[0] == "A":
+                h, ka, kb, o = parts[1], int(parts[2]), int(parts[3]), int(parts[4])
+                holder = self.classes[int(h[1:])] if h[0] == "c" else objs[int(h[1:])]
+                setattr(holder, f"{nstr(ka)}_to_{nstr(kb)}", objs[o]._to_parent)
+            elif parts[0] == "S":
+                label = site_labels[int(parts[1])]
+                s, p, o = int(parts[2]), int(parts[3]), int(parts[4])
+                nm = nstr(names[s])
+                if label == "TopocentricOrientation.__init__":
+                    objs[s] = omod.TopocentricOrientation(nm, (0.3, 0.4, 0.0), parent=objs[p])
+                elif label in ("create_station[orient]", "create_station[center]"):
+                    from beyond.frames.stations import create_station
+                    f = create_station(nm, (12.0, 34.0, 56.0), parent_frame=frame_for(p, o))
+                    objs[s] = f.orientation if self.world == "orient" else f.center
+                elif label == "LocalOrbitalOrientation.__init__":
+                    objs[s] = omod.LocalOrbitalOrientation(nm, None, "QSW", NS(orientation=objs[p], name=nstr(names[o]) + "F"))
+                elif label in ("orbit2frame[orient]", "orbit2frame[center]"):
+                    from beyond.orbits import StateVector
+                    if self.world == "orient":
+                        src = fmod.Frame(f"{tag}src{s}", dummy_orient, dummy_center, exists_warning=False)
+                        sv = StateVector([7e6, 0, 0, 0, 7500.0, 0], self.date, "cartesian", src)
+                        f = fmod.orbit2frame(nm, sv, orientation="TNW", parent=frame_for(p, o), exists_warning=False)
+                        objs[s] = f.orientation
+                    else:
+                        sv = StateVector([7e6, 0, 0, 0, 7500.0, 0], self.date, "cartesian", frame_for(p, o))
+                        f = fmod.orbit2frame(nm, sv, exists_warning=False)
+                        objs[s] = f.center
+                elif label == "LagrangeOrient.__init__":
+                    prefix = nm[: -len("Lagrange")]
+                    objs[s] = self.lmod.LagrangeOrient(NS(center=NS(body=NS(name=prefix)), orientation=objs[p]), NS(name=""))
+                elif label in ("lagrange[orient]", "lagrange[center]"):
+                    if self.world == "orient":
+                        prefix = nm[: -len("Lagrange")]
+                        f1 = NS(center=NS(body=NS(name=prefix)), orientation=objs[p])
+                        f2 = NS(center=dummy_center)
+                        dummy_center.body = NS(name="")
+                        f = self.lmod.lagrange(f1, f2, 2, name=f"{tag}lag{s}")
+                        objs[s] = f.orientation
+                    else:
+                        raise RuntimeError("lagrange[center]: the centre name is computed from body names; not driven here")
+                elif label == "Center.add_link" and isinstance(objs[s], self.jpl.JplCenter):
+                    cmod.Center.add_link(objs[s], objs[p], dummy_orient, np.zeros(6))
+                elif label == "Center.add_link":
+                    objs[s].add_link(objs[p], dummy_orient, np.zeros(6))
+                elif label == "JplCenter.add_link":
+                    objs[s].add_link(objs[p], np.zeros(6))
+                else:
+                    raise RuntimeError(f"site {label} is not driven by the synthetic correspondence")
+                if objs[s].name != nm:
+                    raise RuntimeError(f"site {label} produced an object named {objs[s].name}, expected {nm}")
+            else:
+                raise RuntimeError(f"bad op {tok}")
+        if any(o is None for o in objs):
+            raise RuntimeError("scenario leaves an object unconstructed")
+        nodes = [node(o) for o in objs]
+        back = {nstr(k): k for k in set(names)}
+        idx = {id(x): i for i, x in enumerate(nodes)}
+        # graph dump with names mapped back to integers
+        nb = ";".join(f"{u}:" + ",".join(str(idx[id(x)]) for x in nodes[u].neighbors) for u in range(n))
+        tabs = ";".join(f"{u}:" + ",".join(f"{back[t]}>{idx[id(r.direction)]}/{r.steps}" for t, r in sorted(nodes[u].routes.items(), key=lambda kv: back[kv[0]]))
+                        for u in range(n))
+        conv = []
+        for s in range(n):
+            for goal in sorted(set(names)):
+                conv.append(self.real_convert(objs, nodes, idx, s, nstr(goal)))
+        return "N " + nb + " R " + tabs + " C " + ";".join(conv)
+
+    def real_convert(self, objs, nodes, idx, s, goal):
+        n = len(nodes)
+        st, p = bounded_walk(nodes[s], goal, n + 2)
+        if st in ("K", "L"):
+            return st
+        del self.log[:]
+        try:
+            if self.world == "orient":
+                objs[s].convert_to(self.date, goal)
+            else:
+                objs[s].convert_to(self.date, goal, self.omod.EME2000)
+        except ValueError as e:
+            msg = str(e)
+            if msg.startswith("Unknown transformation"):
+                for i in range(len(p) - 1):
+                    if resolvable(objs[s], p[i].name, p[i + 1].name) is None:
+                        exp = f"Unknown transformation {p[i].name} <-> {p[i + 1].name}"
+                        return f"UT:{idx[id(p[i])]}:{idx[id(p[i + 1])]}" if msg == exp else f"UT?{msg}"
+                return f"UT?{msg}"
+            if msg.startswith("Unknown '"):
+                return "UN"
+            return "E:" + msg[:60]
+        if st == "U":
+            return "noerror-on-unknown"
+        owners = [idx.get(id(o if self.world == "orient" else o.node), "x") for o in self.log]
+        if len(owners) != len(p) - 1:
+            return f"steps?{owners}"
+        out = []
+        for i in range(len(p) - 1):
+            d = resolvable(objs[s], p[i].name, p[i + 1].name)
+            out.append(f"{idx[id(p[i])]}>{idx[id(p[i + 1])]}:{d}:{owners[i]}")
+        return "ok=" + ",".join(out)
+
+
+def real_reg_dumps(scenarios, site_labels):
+    """run every scenario on the real classes; returns one reply string per scenario ('ERR …' when the real code raises)"""
+    import warnings
+    import logging
+    warnings.filterwarnings("ignore")
+    logging.disable(logging.CRITICAL)
+    out = []
+    worlds = {}
+    try:
+        for sc in scenarios:
+            w = worlds.get(sc["world"])
+            if w is None:
+                w = worlds[sc["world"]] = _RegWorld(sc["world"])
+            try:
+                out.append(w.run(sc, site_labels))
+            except Exception as e:  # noqa: BLE001
+                out.append("ERR " + repr(e)[:200] + " " + traceback.format_exc()[-400:].replace("\n", " | "))
+    finally:
+        for w in worlds.values():
+            w.restore()
+    return out
+
+
+def forked(fn, *args, time_limit=120.0, mem_gb=3.0):
+    """run fn(*args) in a forked child under a time / memory bound; returns (result, None) or (None, reason)"""
+    rfd, wfd = os.pipe()
+    sys.stdout.flush()
+    sys.stderr.flush()
+    pid = os.fork()
+    if pid == 0:
+        os.close(rfd)
+        try:
+            import resource
+            resource.setrlimit(resource.RLIMIT_AS, (int(mem_gb * 2**30), int(mem_gb * 2**30)))
+            signal.signal(signal.SIGALRM, signal.SIG_DFL)
+            signal.setitimer(signal.ITIMER_REAL, time_limit)
+            res = {"ok": fn(*args)}
+        except BaseException as e:  # noqa: BLE001
+            res = {"error": repr(e), "tb": traceback.format_exc()[-1500:]}
+        try:
+            with os.fdopen(wfd, "wb") as f:
+                f.write(json.dumps(res, default=str).encode())
+        finally:
+            os._exit(0)
+    os.close(wfd)
+    chunks = []
+    with os.fdopen(rfd, "rb") as f:
+        while True:
+            b = f.read(65536)
+            if not b:
+                break
+            chunks.append(b)
+    _, status = os.waitpid(pid, 0)
+    data = b"".join(chunks)
+    if data:
+        res = json.loads(data.decode())
+        if "ok" in res:
+            return res["ok"], None
+        return None, res.get("error", "?") + " " + res.get("tb", "")
+    return None, (f"killed by signal {os.WTERMSIG(status)}" if os.WIFSIGNALED(status) else f"exit status {os.WEXITSTATUS(status)}")
+
+
+# ---------------------------------------------------------------- generators of registry scenarios
+
+def random_reg_scenario(rng, world, site_labels, mro, tagno):
+    """objects 0..n-1; object 0 is a plain base-class object; every other object is brought in by a registration site of
+    the code or by raw operations, then extra raw operations (re-links, shadowing setattr, same-name objects)"""
+    S = {lab: i for i, lab in enumerate(site_labels)}
+    n = rng.randint(3, 8)
+    share = rng.random() < 0.4
+    names = []
+    for i in range(n):
+        if share and names and rng.random() < 0.35:
+            names.append(rng.choice(names))
+        else:
+            names.append(max(names, default=-1) + 1)
+    if world == "orient":
+        classes = [0] + [rng.choice([0, 1, 1, 2, 3, 4, 5]) for _ in range(n - 1)]
+        # a LagrangeOrient's name ends with 'Lagrange': every object sharing that name gets the suffix too (handled by nstr)
+    else:
+        classes = [rng.choice([0, 0, 1, 2]) for _ in range(n)]
+    ops = []
+    order = list(range(1, n))
+    rng.shuffle(order)
+    have = [0] if world == "orient" or True else []
+    pre = [i for i in range(n) if (world == "orient" and classes[i] in (0, 4, 5)) or world == "center"]
+
+    def raw_registration(i, p):
+        r = rng.random()
+        a, b = (i, p) if rng.random() < 0.7 else (p, i)
+        key = f"{names[a]}:{names[b]}"
+        owner = i
+        if r < 0.70:
+            hold = "c0"
+        elif r < 0.80:
+            hold = f"c{classes[i]}"          # registered on the object's own class only
+        elif r < 0.88:
+            hold = f"i{i}"                   # on the instance only
+        elif r < 0.94:
+            hold = f"c{classes[p]}"          # on type(parent)
+        else:
+            hold = None                      # forgotten
+        seq = []
+        if hold is not None:
+            seq.append(f"A:{hold}:{key}:{owner}")
+        seq.append(f"L:{p}:{i}" if rng.random() < 0.5 else f"L:{i}:{p}")
+        if rng.random() < 0.5:
+            seq.reverse()
+        return seq
+
+    for i in order:
+        p = rng.choice(have)
+        o = rng.randrange(n)
+        c = classes[i]
+        if world == "orient":
+            if c in (0, 4, 5):
+                ops += raw_registration(i, p)
+            elif c == 1:
+                ops.append(f"S:{S['TopocentricOrientation.__init__'] if rng.random() < 0.25 else S['create_station[orient]']}:{i}:{p}:{o}")
+            elif c == 2:
+                ops.append(f"S:{S['LocalOrbitalOrientation.__init__'] if rng.random() < 0.5 else S['orbit2frame[orient]']}:{i}:{p}:{o}")
+            elif c == 3:
+                ops.append(f"S:{S['LagrangeOrient.__init__'] if rng.random() < 0.5 else S['lagrange[orient]']}:{i}:{p}:{o}")
+        else:
+            r = rng.random()
+            if c == 1:
+                ops.append(f"S:{S['JplCenter.add_link']}:{i}:{p}:{o}")
+            elif r < 0.5:
+                ops.append(f"S:{S['Center.add_link']}:{i}:{p}:{o}")
+            elif r < 0.8:
+                ops += raw_registration(i, p)
+            else:
+                ops.append(f"S:{S['Center.add_link']}:{i}:{p}:{o}")
+        have.append(i)
+    # extra operations on existing objects
+    for _ in range(rng.randint(0, 3)):
+        r = rng.random()
+        a, b = rng.sample(range(n), 2)
+        if r < 0.4:
+            ops.append(f"L:{a}:{b}")                                           # a second link / a cycle, unregistered
+        elif r < 0.7:
+            hold = rng.choice([f"i{rng.randrange(n)}", f"c{rng.choice(sorted(mro))}", "c0"])
+            ops.append(f"A:{hold}:{names[a]}:{names[b]}:{rng.randrange(n)}")   # shadowing / overriding entry
+        elif world == "center":
+            ops.append(f"S:{S['Center.add_link']}:{a}:{b}:0")                  # a centre attached a second time
+        else:
+            ops += raw_registration(a, b)
+    return {"world": world, "tag": f"T{tagno}", "names": names, "classes": classes, "mro": {int(k): v for k, v in mro.items()}, "ops": ops}
